@@ -21,7 +21,7 @@ RULE = (
 def run(ctx):
     binary = uc.build()
     texts = ctx.pick(48_000, 1_000_000)
-    miri_shards, miri_texts = ctx.pick((16, 8), (16, 150))
+    miri_shards, miri_texts = ctx.pick((8, 3), (16, 100))
     with ThreadPoolExecutor(max_workers=1) as bg:
         # Miri (slow start-up, ~0.1 s per call) runs concurrently with the native shards; short texts only
         miri_future = bg.submit(uc.miri_sharded, ctx, "carats", "c31", miri_shards, miri_texts, ("--short-only",))
